@@ -23,6 +23,10 @@
 (* Version / upload ids are ordinals in creation order (ULIDs are          *)
 (* monotonic per process); version id 0 is the 'null' version.             *)
 (*                                                                         *)
+(* APIs of a case: "store" = storage.Storage method, "v1"/"v2"/"v2s" =      *)
+(* ListObjects through HTTP (marker, continuation-token, start-after),     *)
+(* "http" = the other listings through HTTP.  One-character delimiters.    *)
+(*                                                                         *)
 (* Every operator takes the deviation set D explicitly: D = {} is the      *)
 (* intended design (what C06 demands), D = open tags is the model of what  *)
 (* the code is known to do.                                                *)
